@@ -534,3 +534,87 @@ def cpl_cert(fam, mode, c, pr, sol, opts, first):
     det['pres'] = float(math.sqrt(resp2 / pres0)); det['dres'] = float(math.sqrt(resx2 / dres0)); det['gap'] = float(gap)
     det['pobj'] = float(pobj)
     return cert, det
+
+
+# ---------------------------------------------------------------------------
+# Nesterov-Todd scalings in exact arithmetic (independent of cvxopt.misc.scale)
+# ---------------------------------------------------------------------------
+def _blocks(d, mnl):
+    out = [("l", 0, mnl + d['l'])]
+    k = mnl + d['l']
+    for m in d['q']:
+        out.append(("q", k, m)); k += m
+    for m in d['s']:
+        out.append(("s", k, m)); k += m * m
+    return out
+
+
+def scale_exact(x, W, d, mnl, trans=False, inv=False):
+    """W: dict of Fractions: dnl, d, beta, v (lists), r, rti (column-major lists).  x: list of Fractions (cone layout;
+    's' blocks are read through their lower triangle).  Returns W x / W'x / W^-1 x / W^-T x (full symmetric 's' blocks)."""
+    out = list(x)
+    dd = list(W.get('dnl', [])) + list(W['d'])
+    for i in range(mnl + d['l']):
+        out[i] = x[i] / dd[i] if inv else x[i] * dd[i]
+    qi = si = 0
+    for kind, o, m in _blocks(d, mnl)[1:]:
+        if kind == "q":
+            v, b = W['v'][qi], W['beta'][qi]
+            xs = x[o:o + m]
+            Jx = [xs[0]] + [-a for a in xs[1:]]
+            if not inv:
+                vx = sum(a * c for a, c in zip(v, xs))
+                for i in range(m):
+                    out[o + i] = b * (2 * v[i] * vx - Jx[i])
+            else:
+                Jv = [v[0]] + [-a for a in v[1:]]
+                vJx = sum(a * c for a, c in zip(v, Jx))
+                for i in range(m):
+                    out[o + i] = (2 * Jv[i] * vJx - Jx[i]) / b
+            qi += 1
+        else:
+            M = W['rti'][si] if inv else W['r'][si]
+            useT = (trans == inv)
+            def L(a, c, M=M, m=m, useT=useT):
+                return M[a * m + c] if useT else M[c * m + a]       # useT: M'[a][c] = M[c][a] = M[a*m + c] (column-major)
+            def X(a, c, o=o, m=m):
+                a, c = (a, c) if a >= c else (c, a)
+                return x[o + c * m + a]
+            for j in range(m):
+                for i in range(m):
+                    out[o + j * m + i] = sum(L(i, a) * X(a, c) * L(j, c) for a in range(m) for c in range(m))
+            si += 1
+    return out
+
+
+def w_invariants(W, d, mnl, tol=Fr(1, 10 ** 10)):
+    """documented invariants of a scaling dictionary with float entries (cvxopt matrices), judged in exact arithmetic relative
+    to the norms of the factors: d > 0, d*di = 1, beta > 0, v0 > 0, v'Jv = 1, r nonsingular with r' * rti = I"""
+    bad = []
+    pairs = [('d', 'di')] + ([('dnl', 'dnli')] if 'dnl' in W else [])
+    for a, b in pairs:
+        for x, y in zip(fvec(W[a]), fvec(W[b])):
+            if x <= 0:
+                bad.append(a + "<=0")
+            elif abs(x * y - 1) > tol:
+                bad.append(a + "*" + b + "!=1")
+    for k, (v, beta) in enumerate(zip(W['v'], W['beta'])):
+        v = fvec(v)
+        if Fr(float(beta)) <= 0:
+            bad.append("beta<=0")
+        if v and v[0] <= 0:
+            bad.append("v0<=0")
+        if v:
+            j = v[0] * v[0] - sum(a * a for a in v[1:])
+            if abs(j - 1) > tol * (1 + v[0] * v[0]):
+                bad.append("v'Jv!=1")
+    for r, rti in zip(W['r'], W['rti']):
+        m = r.size[0]
+        R, T = fvec(r), fvec(rti)
+        nr = max([abs(a) for a in R] + [Fr(0)]) * max([abs(a) for a in T] + [Fr(0)])
+        for i in range(m):
+            for j in range(m):
+                e = sum(R[i * m + t] * T[j * m + t] for t in range(m)) - (1 if i == j else 0)     # (r' rti)[i][j]
+                if abs(e) > tol * (1 + nr) * m:
+                    bad.append("r'*rti!=I")
+    return sorted(set(bad))
